@@ -30,7 +30,7 @@ theorem mergeStep_list {d : Nat} {rec srec} (H : RecOK d rec srec) {sf : Flags} 
     {k : Key} {v : Node} {i : Nat} (hi : listIndex acc.length k = some i)
     (hv : plainO v = true) (hdv : v.depth ≤ d) :
     ∃ va, (nativeVals acc)[i]? = some va ∧
-      LRelL acc.length (mergeStep rec sf .list acc (k, v))
+      LRelL acc.length (mergeStep rec sf .list [] acc (k, v))
         (match srec va (native v) with
          | .error e => .error e
          | .ok p => .ok (setAt i p (nativeVals acc))) := by
@@ -85,7 +85,7 @@ theorem mergeLoop_list {d : Nat} {rec srec} (H : RecOK d rec srec) {sf : Flags} 
     ∀ (ocs acc : List (Key × Node)), plainTList acc = true → listKeys 0 acc = true →
       plainTList ocs = true → dictsLiveList ocs = true → depthList ocs ≤ d →
       allIndices acc.length (nativeList ocs) = true →
-      LRelL acc.length (mergeLoop rec sf .list acc ocs)
+      LRelL acc.length (mergeLoop rec sf .list [] acc ocs)
         (updF.updList srec (nativeVals acc) (nativeList ocs))
   | [], acc, hacc, hk, _, _, _, _ => by simp [mergeLoop, nativeList, updF.updList, LRelL, hacc, hk]
   | (k, v) :: rest, acc, hacc, hk, ho, hl, hd, hidx => by
@@ -99,7 +99,7 @@ theorem mergeLoop_list {d : Nat} {rec srec} (H : RecOK d rec srec) {sf : Flags} 
     have hv : plainO v = true := (plainO_iff v).2 ⟨ho'.1, hl'.1⟩
     obtain ⟨va, hva, hstep⟩ := mergeStep_list H hsf hacc hk (k := k) hi hv hd'.1
     simp only [mergeLoop, nativeList, updF.updList, length_nativeVals, hi, hva]
-    cases hm : mergeStep rec sf .list acc (k, v) with
+    cases hm : mergeStep rec sf .list [] acc (k, v) with
     | error e =>
       rw [hm] at hstep
       cases hs : srec va (native v) with
@@ -170,7 +170,7 @@ theorem mergeF_plain : ∀ (n m : Nat) (a b : Node), plainT a = true → plainO 
             · subst hka
               have hloop := mergeLoop_dict H hfa cb ca hca hcb hcl (Nat.le_refl _)
               simp only [native, CompKind.isDictFam, if_true, updF_dict_dict]
-              cases hml : mergeLoop (mergeF n) fa .dict ca cb with
+              cases hml : mergeLoop (mergeF n) fa .dict [] ca cb with
               | error e =>
                 cases hsl : updF.updDict (updF m) (nativeList ca) (nativeList cb) with
                 | error e' => simpa [hml, hsl, LRelD, MRel, Except.map] using hloop
@@ -190,7 +190,7 @@ theorem mergeF_plain : ∀ (n m : Nat) (a b : Node), plainT a = true → plainO 
               have hidx : allIndices ca.length (nativeList cb) = true := hvalid fb cb rfl rfl
               have hloop := mergeLoop_list H hfa cb ca hca hkeysa hcb hcl (Nat.le_refl _) hidx
               simp only [hidx, if_true]
-              cases hml : mergeLoop (mergeF n) fa .list ca cb with
+              cases hml : mergeLoop (mergeF n) fa .list [] ca cb with
               | error e =>
                 cases hsl : updF.updList (updF m) (nativeVals ca) (nativeList cb) with
                 | error e' => simpa [hml, hsl, LRelL, MRel, Except.map] using hloop
